@@ -13,6 +13,7 @@ import (
 	"fmt"
 	"math"
 	"strconv"
+	"strings"
 
 	"github.com/Factom-Asset-Tokens/factom"
 	"github.com/ethereum/go-ethereum/crypto"
@@ -52,6 +53,13 @@ func readObject(dec *json.Decoder, allowed map[string]bool, f func(key string) e
 		if !ok {
 			return strictErr("key is not a string")
 		}
+		if !allowed[key] && lenientMode {
+			for k := range allowed {
+				if strings.EqualFold(k, key) {
+					key = k
+				}
+			}
+		}
 		if !allowed[key] {
 			return strictErr("unknown key " + key)
 		}
@@ -89,6 +97,9 @@ func readUint(dec *json.Decoder) (uint64, error) {
 	if err != nil {
 		return 0, err
 	}
+	if tok == nil && lenientMode {
+		return 0, nil
+	}
 	n, ok := tok.(json.Number)
 	if !ok {
 		return 0, strictErr("expected number")
@@ -112,6 +123,9 @@ func readAddr(dec *json.Decoder) ([32]byte, error) {
 	tok, err := dec.Token()
 	if err != nil {
 		return out, err
+	}
+	if tok == nil && lenientMode {
+		return out, nil
 	}
 	s, ok := tok.(string)
 	if !ok {
@@ -138,6 +152,19 @@ func readTicker(dec *json.Decoder) (int, error) {
 		return 0, strictErr("unknown ticker")
 	}
 	return t, nil
+}
+
+// lenientMode relaxes the acceptor by the two spellings the properties do not
+// list as non-canonical: object keys matched case-insensitively (Go's decoder
+// does this) and JSON null for an amount or address (decoded as zero). Used
+// only by C20's oracle to classify such inputs as don't-care; single-threaded.
+var lenientMode bool
+
+// LenientParseBatch is StrictParseBatch with lenientMode on.
+func LenientParseBatch(content []byte) ([]PTx, error) {
+	lenientMode = true
+	defer func() { lenientMode = false }()
+	return StrictParseBatch(content)
 }
 
 // zeroKeyAddress is the address of the all-zero private key, reserved by FAT as
